@@ -3,6 +3,7 @@
 package rsm
 
 import (
+	pb "github.com/lni/dragonboat/v4/raftpb"
 	sm "github.com/lni/dragonboat/v4/statemachine"
 )
 
@@ -41,4 +42,34 @@ func (s *StateMachine) VerifC05Dump() (uint64, []VerifC05Session) {
 		out[i], out[j] = out[j], out[i]
 	}
 	return rec.size, out
+}
+
+// VerifC05SaveStep1 and VerifC05SaveStep2 are the two steps of
+// (*StateMachine).concurrentSave, statement for statement, as separate calls:
+// between them s.mu is not held, which is where the update thread of a
+// concurrent state machine keeps applying entries while a snapshot is written.
+// The harness applies entries between the two calls.
+func (s *StateMachine) VerifC05SaveStep1(r SSRequest) (SSMeta, error) {
+	if r.Streaming() || s.isWitness || !s.Concurrent() {
+		panic("verif: VerifC05SaveStep1 is for concurrent, non-streaming saves")
+	}
+	var err error
+	var meta SSMeta
+	if err := func() error {
+		s.mu.RLock()
+		defer s.mu.RUnlock()
+		meta, err = s.prepare(r)
+		return err
+	}(); err != nil {
+		return SSMeta{}, err
+	}
+	return meta, nil
+}
+
+// VerifC05SaveStep2 is the rest of concurrentSave.
+func (s *StateMachine) VerifC05SaveStep2(meta SSMeta) (pb.Snapshot, SSEnv, error) {
+	if err := s.sync(); err != nil {
+		return pb.Snapshot{}, SSEnv{}, err
+	}
+	return s.doSave(meta)
 }
